@@ -110,6 +110,12 @@ func (msg *message) bodySection(item *imap.FetchItemBodySection) []byte {
 		body   io.Reader
 	)
 
+	if len(item.Part) == 0 && item.Specifier == imap.PartSpecifierNone {
+		// The whole message is returned as it was stored: parsing the
+		// header and writing it back is lossy
+		return extractPartial(msg.buf, item.Partial)
+	}
+
 	br := bufio.NewReader(bytes.NewReader(msg.buf))
 	header, err := textproto.ReadHeader(br)
 	if err != nil {
@@ -208,20 +214,22 @@ func (msg *message) bodySection(item *imap.FetchItemBodySection) []byte {
 		}
 	}
 
-	// Extract partial if any
-	b := buf.Bytes()
-	if partial := item.Partial; partial != nil {
-		if partial.Offset > int64(len(b)) {
-			return nil
-		}
-		// partial.Offset + partial.Size may overflow
-		size := partial.Size
-		if size > int64(len(b))-partial.Offset {
-			size = int64(len(b)) - partial.Offset
-		}
-		b = b[partial.Offset : partial.Offset+size]
+	return extractPartial(buf.Bytes(), item.Partial)
+}
+
+func extractPartial(b []byte, partial *imap.SectionPartial) []byte {
+	if partial == nil {
+		return b
 	}
-	return b
+	if partial.Offset > int64(len(b)) {
+		return nil
+	}
+	// partial.Offset + partial.Size may overflow
+	size := partial.Size
+	if size > int64(len(b))-partial.Offset {
+		size = int64(len(b)) - partial.Offset
+	}
+	return b[partial.Offset : partial.Offset+size]
 }
 
 func (msg *message) flagList() []imap.Flag {
